@@ -8,6 +8,7 @@ import FatVerif.Model.BpbDriver
 import FatVerif.Model.FormatDriver
 import FatVerif.Model.FatDriver
 import FatVerif.Model.CursorDriver
+import FatVerif.Model.IoWrap
 /-! `fatmodel pure`: read `P` lines, compare the model with the implementation's recorded output, run oracles. -/
 namespace FatVerif.PureMain
 
@@ -23,7 +24,8 @@ def suites : List Suite := [
   ⟨BpbDriver.handle, BpbDriver.oracle, BpbDriver.branch⟩,
   ⟨FormatDriver.handle, FormatDriver.oracle, FormatDriver.branch⟩,
   ⟨FatDriver.handle, FatDriver.oracle, FatDriver.branch⟩,
-  ⟨CursorDriver.handle, CursorDriver.oracle, CursorDriver.branch⟩]
+  ⟨CursorDriver.handle, CursorDriver.oracle, CursorDriver.branch⟩,
+  ⟨IoWrap.handle, IoWrap.oracle, IoWrap.branch⟩]
 
 def dispatch (fn : String) (args : List String) : Option (String × Suite) :=
   suites.findSome? fun s => (s.handle fn args).map fun r => (r, s)
